@@ -140,7 +140,7 @@ static void h_halfclose(int argc, char **argv)
 }
 
 /* ------------------------------------------------------------------ datagrams */
-static const int DLEN[3] = {1, 5, 9};
+static int DLEN[3] = {1, 5, 9};          /* third harness argument z: {0, 5, 0} (empty datagrams are datagrams: length 0, sender address reported) */
 static int dg_n, dg_len[4]; static unsigned char dg_data[4][16]; static int dg_port[4]; static int sender_port;
 static void *dg_sender(void *arg)
 {
@@ -175,6 +175,7 @@ static void h_dgram(int argc, char **argv)
 {
     int a, b, i, next = 0;
     RBUF = argc > 0 ? atoi(argv[0]) : 4; FAM = argc > 1 ? atoi(argv[1]) : 4;
+    if (argc > 2 && argv[2][0] == 'z') { DLEN[0] = 0; DLEN[2] = 0; }
     listen_setup(P_SOCKET_TYPE_DATAGRAM);
     a = mc_thread_create(dg_receiver, NULL); b = mc_thread_create(dg_sender, NULL);
     mc_thread_join(a); mc_thread_join(b);
@@ -202,6 +203,8 @@ static void h_peergone(int argc, char **argv)
     mc_thread_join(t);                    /* the peer has closed */
     for (i = 0; i < 3; i++) { pssize r; e = NULL; r = p_socket_send(a, "xy", 2, &e); if (r < 0) { errors++; bad_error("server", "send", e, 1); p_error_free(e); } }
     if (!errors) mc_fail("C09", "peergone/no-error", "three sends to a peer that has closed all reported success");
+    /* the same through p_socket_send_to, which is legal on a connected stream socket: an error, never a signal */
+    for (i = 0; i < 2; i++) { pssize r; e = NULL; r = p_socket_send_to(a, laddr, "xy", 2, &e); if (r < 0) { bad_error("server", "send_to", e, 1); p_error_free(e); } else mc_fail("C09", "peergone/no-error", "send_to to a peer that has gone reported success after send had already failed"); }
     p_socket_free(a); p_socket_free(lsock); p_socket_address_free(laddr);
     mc_nontrivial(0);
     mc_outcome("errors=%d", errors);
